@@ -275,10 +275,11 @@ def run(rep, tier):
     nh = 6 if tier == "quick" else 7
     P, cons = allsat.pairing_vars(nh)
     H = [z3.Int(f"h{i}") for i in range(L)]
-    cons = cons + [z3.Or([x == c for c in core]) for x in H] + [allsat.narcs_formula(P, 3)]
-    models, nq, dt = allsat.allsat(P + H, cons)
-    rep.add(transitions=nq, solver_s=dt)
-    pt = allsat.run_family(f"histories_n{nh}_len{L}", "harness.c12", "body_hist", [(m[:nh], m[nh:]) for m in models],
+    # independent parts (structure, call sequence): enumerated separately by AllSAT and combined
+    mp, nq1, dt1 = allsat.allsat(P, cons + [allsat.narcs_formula(P, 3)])
+    mh, nq2, dt2 = allsat.allsat(H, [z3.Or([x == c for c in core]) for x in H])
+    rep.add(transitions=nq1 + nq2, solver_s=dt1 + dt2)
+    pt = allsat.run_family(f"histories_n{nh}_len{L}", "harness.c12", "body_hist", [(a, b) for a in mp for b in mh],
                            [f"pairings on {nh} positions with 3 pairs", f"call sequences of length {L} over {[OPS[c] for c in core]}"],
                            expected=None, chunksize=64)
     parts.append(pt)
